@@ -170,11 +170,25 @@ def overlap_case(run, seed, idx, mods):
     r = rng(seed, "C14", "ov", idx)
     shape = [(4, 4), (8, 13), (32, 32), (64, 50), (128, 128), (3, 300)][idx % 6]
     cls = ["partial", "identical", "disjoint", "random-labels", "partial", "same-last-pixel"][(idx // 2) % 6]
+    tall = idx % 10 == 9
+    if tall:
+        # coordinates are 16 bit: exercise rows/columns beyond 32767 (sign bit of a packed 32 bit key) with frames
+        # that straddle that line
+        shape = [(40000, 6), (6, 40000), (65534, 3), (33000, 4)][(idx // 10) % 4]
     m1 = r.random(shape) < float(r.choice([0.1, 0.3, 0.6]))
+    if tall:
+        m1 = np.zeros(shape, bool)
+        ax = 0 if shape[0] > shape[1] else 1
+        for lo in (int(r.integers(0, 30000)), 32760, int(r.integers(32768, shape[ax] - 8))):
+            sl = [slice(None), slice(None)]
+            sl[ax] = slice(lo, lo + int(r.integers(3, 16)))
+            m1[tuple(sl)] = r.random(m1[tuple(sl)].shape) < 0.7
     if cls == "identical":
         m2 = m1.copy()
     elif cls == "disjoint":
         m2 = (~m1) & (r.random(shape) < 0.5)
+    elif tall:
+        m2 = np.roll(m1, int(r.integers(-3, 4)), axis=0 if shape[0] > shape[1] else 1) & (r.random(shape) < 0.9)
     else:
         m2 = r.random(shape) < float(r.choice([0.1, 0.3, 0.6]))
     if cls == "same-last-pixel":
@@ -198,6 +212,8 @@ def overlap_case(run, seed, idx, mods):
     for a, b in zip(l1[both].tolist(), l2[both].tolist()):
         want[(a, b)] = want.get((a, b), 0) + 1
     desc = dict(index=idx, kind="overlap", shape=shape, cls=cls, n1=int(n1), n2=int(n2))
+    if tall:
+        run.count("overlap_cases_beyond_32767")
     run.case((shape, cls, hash(m1.tobytes()), hash(m2.tobytes())), nontrivial=len(want) >= 1,
              sample=dict(desc, pairs=len(want)))
 
@@ -273,3 +289,4 @@ def check(run, replay=None):
     run.require_counter("roundtrips", 100)
     run.require_counter("sort_calls", 50)
     run.require_counter("overlap_cases", 100)
+    run.require_counter("overlap_cases_beyond_32767", 10)
